@@ -928,6 +928,9 @@ impl<'a> Gen<'a> {
                 .blocks
                 .iter()
                 .filter(|b| b.start_line < line && line < b.end_line && b.tag_lines == 1)
+                // (ASCII tag lines only: blockwatch compares character indices of the change with
+                // byte columns of the tag, which agree only there - C01/C02 territory)
+                .filter(|b| r.lines[b.start_line - 1].is_ascii())
                 .max_by_key(|b| b.start_line)
             {
                 let tag_line = &r.lines[b.start_line - 1];
@@ -987,6 +990,7 @@ impl<'a> Gen<'a> {
             LineEdit::Replaced { old } if is_tag_rewrite(old) => {
                 r.blocks.iter().any(|b| b.start_line == *l && b.tag_lines == 1 && b.end_line != *l)
                     && !r.lines[*l - 1].contains('~')
+                    && r.lines[*l - 1].is_ascii()
                     && (!old.contains(DROPPED_ATTR) || with_dropped_attr(&r.lines[*l - 1]).as_deref() == Some(old.as_str()))
             }
             _ => cands.contains(l),
